@@ -143,6 +143,9 @@ def check_case(case, ctx):
         return
     if k == 'fixlayout':
         return _check_fixlayout(case, ctx)
+    names = [p['name'] for p in case['model']['params']]
+    if len(set(names)) != len(names):
+        raise Discard()     # domain guard for replayed/shrunk cases: one @name line per parameter
     return _check_gen(case, ctx)
 
 
